@@ -1018,6 +1018,12 @@ def gen_versions(rng: random.Random, prop: str) -> dict:
     files: typing.List[dict] = []
     msg_pids = [7200, 7201, 7300] if std else [6200, 6201, 6300]
     srv_pids = [400, 401] if std else [300, 301]
+    # unregulated mode: small port-IDs, with subject-IDs that equal a service-ID or differ from one by a power of two
+    # (any encoding of "(kind, port-ID)" into one number must keep the two kinds apart for every such pair)
+    unreg = rng.random() < 0.25
+    if unreg:
+        srv_pids = rng.sample([0, 1, 5, 100, 255, 256, 288, 300, 383, 511], 2)
+        msg_pids = rng.sample(sorted({s + off for s in srv_pids for off in (0, 256, 512, 1024, 4096)} | {8191}), 3)
     allv = [(0, 1), (0, 2), (1, 0), (1, 1), (1, 2), (2, 0), (2, 1), (3, 0)]
     for short in rng.sample(SHORTS, rng.randint(1, 3)):
         sub = list(rng.choice([[], [], ["x"]]))
@@ -1074,6 +1080,8 @@ def gen_versions(rng: random.Random, prop: str) -> dict:
     else:
         call = gen_call(rng, files, layout, "files")
         call["allow_unreg"] = False
+    if unreg:
+        call["allow_unreg"] = True
     return {"files": files, "call": call, "enum_seed": rng.randrange(10**6)}
 
 
